@@ -462,6 +462,8 @@ class Engine:
                 fa, fb = self.to_float(a), self.to_float(b)
                 return z3.fpEQ(fa, fb)
             return z3.BoolVal(False)
+        if a.k == "opaque" and not a.t.sort().eq(b.t.sort()):
+            return z3.Bool(fresh_name("eq_unknown"))      # unmodelled values of different static kinds: equality unknown
         if a.k in ("int", "bool", "bytes", "str", "opaque", "dir"):
             return a.t == b.t
         if a.k == "float":
